@@ -85,6 +85,14 @@ Definition well_separated (pre : bool) (groups : list (list Z)) : bool :=
   | [] => false
   end.
 
+(* the result for a literal of base b whose body has the groups [groups], at bit size bits (1..64) *)
+Definition literal_result (b : Z) (pre : bool) (bits : Z) (groups : list (list Z)) : presult :=
+  let chars := concat groups in                                  (* the body without its underscores *)
+  let ds := leading_digits b chars in
+  if 2 ^ bits - 1 <? positional b ds then PRange (2 ^ bits - 1)
+  else if negb (forallb (is_digit_in b) chars) then PSyntax
+  else if well_separated pre groups then POk (positional b ds) else PSyntax.
+
 Definition go_parse_uint (s : list Z) (base bitSize : Z) : presult :=
   match s with
   | [] => PSyntax
@@ -93,14 +101,8 @@ Definition go_parse_uint (s : list Z) (base bitSize : Z) : presult :=
       | None => PBase
       | Some (b, pre, body) =>
           if (bitSize <? 0) || (64 <? bitSize) then PBitSize
-          else
-            let bits := if bitSize =? 0 then 64 else bitSize in
-            let groups := if base =? 0 then split_us body else [body] in       (* underscores separate only in base 0 *)
-            let chars := concat groups in
-            let ds := leading_digits b chars in
-            if 2 ^ bits - 1 <? positional b ds then PRange (2 ^ bits - 1)
-            else if negb (forallb (is_digit_in b) chars) then PSyntax
-            else if well_separated pre groups then POk (positional b ds) else PSyntax
+          else literal_result b pre (if bitSize =? 0 then 64 else bitSize)
+                              (if base =? 0 then split_us body else [body])      (* underscores separate only in base 0 *)
       end
   end.
 
